@@ -583,6 +583,31 @@ mod store {
         data_size(d.path())
     }
 
+    /// C17 (first two clauses): after the store object is dropped every operation through a remaining handle fails with
+    /// the closed error and the directory does not change
+    pub fn closed_search() {
+        let dir = tempfile::tempdir().unwrap();
+        let kv = mk_conf(dir.path(), 64, "all").open().unwrap();
+        let h = kv.get_handle();
+        h.set(b("a"), b("1")).unwrap(); h.set(b("b"), b("2")).unwrap(); h.set(b("a"), b("3")).unwrap(); h.del(b("b")).unwrap();
+        let h2 = h.clone();
+        drop(kv);
+        std::thread::sleep(std::time::Duration::from_millis(50));
+        let before = files(dir.path());
+        let hist = "set a 1; set b 2; set a 3; del b; [store object dropped]; operations through the remaining handles";
+        let is_closed = |r: &dyn std::fmt::Debug| format!("{:?}", r).to_lowercase().contains("closed");
+        let mut bad: Vec<String> = Vec::new();
+        for (name, r) in vec![
+            ("get a (present)", format!("{:?}", h.get(b("a")))), ("get b (deleted)", format!("{:?}", h.get(b("b")))), ("get zz (never written)", format!("{:?}", h.get(b("zz")))), ("get <empty key>", format!("{:?}", h.get(b("")))),
+            ("set a 9", format!("{:?}", h.set(b("a"), b("9")))), ("set new 1", format!("{:?}", h2.set(b("new"), b("1")))), ("del a (present)", format!("{:?}", h.del(b("a")))), ("del zz (absent)", format!("{:?}", h2.del(b("zz")))),
+            ("merge", format!("{:?}", h.verif_merge())), ("clone.get a", format!("{:?}", h2.get(b("a")))),
+        ] { if !(r.starts_with("Err") && is_closed(&r)) { bad.push(format!("{} => {}", name, r)); } }
+        let after = files(dir.path());
+        if !bad.is_empty() { report("closed", "C17", hist, bad.join("; "), "Err(Closed) for every operation"); }
+        if before != after { report("closed", "C17", hist, format!("the directory changed: {:?} -> {:?}", before, after), "no change on disk"); }
+        println!("{{\"found\": false, \"evaluations\": 10, \"searched\": \"10 operations (get / set / del of present, deleted, absent and empty keys, merge, through the handle and a clone) after the store object was dropped; directory listing compared\"}}");
+    }
+
     /// generic history runner: ops are strings "set k v" / "del k" / "get k" / "merge" / "reopen" / "precreate-data N" / "precreate-hint N"
     pub fn run_history(max: u64, mode: &str, ops: &[&str], label: &str) {
         let dir = tempfile::tempdir().unwrap();
@@ -616,7 +641,14 @@ mod store {
                      props, crate::js(&hist2), crate::js(&format!("{} panicked: {}", op, info)));
             std::process::exit(0);
         }));
+        // C14: no data file grows beyond the configured maximum by more than one entry (bincode: 8 tstamp + 8 + key + 1 [+ 8 + value])
+        let max_entry: u64 = ops.iter().map(|o| { let q: Vec<&str> = o.trim_start_matches('!').split(' ').collect(); match q[0] { "set" => 33 + q[1].len() as u64 + q[2].len() as u64, "del" => 17 + q[1].len() as u64, _ => 0 } }).max().unwrap_or(0);
         for (i, op) in ops.iter().enumerate() {
+            if i > 0 && max < (1u64 << 40) && !had_fault && !hist.contains("precreate") && crate::want("C14") {
+                for e in std::fs::read_dir(dir.path()).unwrap() { let e = e.unwrap(); let n = e.file_name().to_string_lossy().to_string();
+                    if n.ends_with(".bitcask.data") { let sz = e.metadata().unwrap().len(); if sz > max + max_entry {
+                        report(label, "C14", &hist, format!("before op {}: {} holds {} bytes (max_file_size {}, largest entry {} bytes); files {:?}", i, n, sz, max, max_entry, files(dir.path())), &format!("at most {} bytes: a file is closed as soon as it exceeds the maximum", max + max_entry)); } } }
+            }
             *cur_op.lock().unwrap() = format!("op {} `{}`", i, op);
             // which properties a wrong read contradicts at this point of the history
             let rp = format!("C01{}{}{}", if had_reopen { ",C02" } else { "" }, if had_merge { ",C05,C12" } else { "" }, if had_fault { ",C20" } else { "" });
@@ -788,6 +820,7 @@ fn main() {
     match a.get(1).map(|s| s.as_str()) {
         Some("frame-search") => frame_search(),
         Some("store-torn-append") => store::torn_append(),
+        Some("store-closed") => store::closed_search(),
         Some("store-crash-run") => { let ops: Vec<&str> = a[5].split(';').map(|s| s.trim()).filter(|s| !s.is_empty()).collect(); store::crash_run(&a[2], a[3].parse().unwrap(), &a[4], &ops); }
         Some("store-crash-verify") => { let ops: Vec<&str> = a[5].split(';').map(|s| s.trim()).filter(|s| !s.is_empty()).collect(); store::crash_verify(&a[2], a[3].parse().unwrap(), &a[4], &ops, a[6].parse().unwrap(), a.get(7).map(|s| s.as_str()).unwrap_or("")); }
         Some("store-search") => store::search(a.get(2).map(|s| s.parse().unwrap()).unwrap_or(0)),
